@@ -16,7 +16,7 @@ def fresh():
     assert rc == 0, out
 results = []
 for pid in sorted(os.listdir(SRC)):
-    for var in ("a", "b"):
+    for var in ("a", "b", "c"):
         d = os.path.join(SRC, pid, "out", var)
         if not os.path.isfile(os.path.join(d, "patch.diff")):
             continue
